@@ -1186,6 +1186,7 @@ func main() {
 		runSchemaFlush(out, root, id, progs, sched, "random")
 		id++
 	}
+	fieldCases(out, root, r, cfg.N/50+2, &id)
 	out.Notes = append(out.Notes, "crash = copy of the database directories taken at an operation boundary or at a scheduling point inside MetricMetaDatabase.Flush; the image is then opened as the recovered database")
 	out.Finish()
 }
